@@ -330,7 +330,9 @@ PLANS = {
                      # a key held by sources whose positions exceed 16 bits (65 540 sources)
                      G("merge_many", 1, 4, "TraceMerger", "TraceMerger.cfg", heavy=False)]),
     "C07": dict(level="model_checking", assumptions=TRUST + ["hook H2 lowers the minimum budget / initial capacity for the small-scale runs; rayon schedules are sampled (pool sizes), not enumerated"],
-                mc=[MC("MCSorter", "MCSorter_content.cfg", workers=8), MC("MCSorter", "MCSorter_content1.cfg", workers=8)],
+                mc=[MC("MCSorter", "MCSorter_content.cfg", workers=8), MC("MCSorter", "MCSorter_content1.cfg", workers=8),
+                    # thorough: one more insert (1 195 742 states)
+                    MC("MCSorter", "MCSorter_content6.cfg", workers=8, quick=False)],
                 gen=[G("sorter", 320, 8000, "TraceSorter", "TraceSorter_C07.cfg"),
                      G("sorter", 160, 4000, "TraceSorter", "TraceSorter_C07.cfg", release=True),
                      # "any chunk creator": chunk storage that accepts / returns a few bytes per call
